@@ -108,7 +108,7 @@ def get_bem_data(node: AbbreviationNode, lookup: dict):
 
 def get_bem_data_from_context(context: dict):
     # XXX dict is unhashable, can’t use lookup. Just re-parse on each request
-    attrs = context.get('attributes', {})
+    attrs = context.get('attributes') or {}
     return parse_bem(attrs.get('class', ''))
 
 
